@@ -316,6 +316,11 @@ type c09Rig struct {
 	up, upTLS                                                         *c09Upstream
 	specs                                                             sync.Map
 	tcpA, tcpPP, sniA, dynA, dynPPA, wsA, tcpTLS, tcpWT, tcpLPP, mixA string
+	// listeners (plain and TLS terminating) in front of a sink: an upstream that ends its own stream as soon as it has
+	// accepted a connection and then reads what the client sends
+	sinkA, sinkTLS string
+	sinkLn         net.Listener
+	sinkGot        sync.Map // session id -> []byte received after the prelude
 }
 
 func newC09Rig(c *ctx) (*c09Rig, error) {
@@ -347,7 +352,15 @@ func newC09Rig(c *ctx) (*c09Rig, error) {
 	os.WriteFile(filepath.Join(certDir, "l-key.pem"), lcrt.KeyPEM, 0o644)
 	r.tcpA, r.tcpPP, r.sniA, r.wsA = fmt.Sprintf("127.0.0.1:%d", pt), fmt.Sprintf("127.0.0.1:%d", pp), fmt.Sprintf("127.0.0.1:%d", ps), fmt.Sprintf("127.0.0.1:%d", pw)
 	r.dynA = fmt.Sprintf("127.0.0.1:%d", dynPort)
-	addr := fmt.Sprintf("%s;proto=tcp,%s;proto=tcp,%s;proto=tcp+sni,127.0.0.1:%d;proto=tcp-dynamic;refresh=1s,%s;proto=http,%s;proto=tcp;cs=cs1,%s;proto=tcp;wt=800ms,%s;proto=tcp;pxyproto=true,%s;proto=https+tcp+sni;cs=cs1", r.tcpA, r.tcpPP, r.sniA, pd, r.wsA, r.tcpTLS, r.tcpWT, r.tcpLPP, r.mixA)
+	sln, err := net.Listen("tcp", "127.0.0.1:0")
+	if err != nil {
+		return nil, err
+	}
+	r.sinkLn = sln
+	go r.serveSink()
+	psink, psinkTLS := freePort(), freePort()
+	r.sinkA, r.sinkTLS = fmt.Sprintf("127.0.0.1:%d", psink), fmt.Sprintf("127.0.0.1:%d", psinkTLS)
+	addr := fmt.Sprintf("%s;proto=tcp,%s;proto=tcp,%s;proto=tcp+sni,127.0.0.1:%d;proto=tcp-dynamic;refresh=1s,%s;proto=http,%s;proto=tcp;cs=cs1,%s;proto=tcp;wt=800ms,%s;proto=tcp;pxyproto=true,%s;proto=https+tcp+sni;cs=cs1,%s;proto=tcp,%s;proto=tcp;cs=cs1", r.tcpA, r.tcpPP, r.sniA, pd, r.wsA, r.tcpTLS, r.tcpWT, r.tcpLPP, r.mixA, r.sinkA, r.sinkTLS)
 	rg, err := newRig(c, "tcp", []string{"-proxy.addr", addr, "-proxy.cs", "cs=cs1;type=path;cert=" + certDir, "-log.level", "WARN"})
 	if err != nil {
 		ln.Close()
@@ -366,6 +379,8 @@ func newC09Rig(c *ctx) (*c09Rig, error) {
 		fmt.Sprintf("route add mixsvc mix.test/ tcp://%s opts \"proto=tcp\"", upAddr),
 		fmt.Sprintf("route add dynpp 127.0.0.1:%d tcp://%s opts \"pxyproto=true\"", dynPP, upAddr),
 		fmt.Sprintf("route add wssvc ws.test/ http://%s/", upAddr),
+		fmt.Sprintf("route add sink :%d tcp://%s opts \"proto=tcp\"", psink, sln.Addr()),
+		fmt.Sprintf("route add sinktls :%d tcp://%s opts \"proto=tcp\"", psinkTLS, sln.Addr()),
 		fmt.Sprintf("route add wsssvc wss.test/ https://%s/ opts \"tlsskipverify=true\"", tln.Addr().String()),
 	}
 	rg.setManual(strings.Join(lines, "\n"))
@@ -373,7 +388,7 @@ func newC09Rig(c *ctx) (*c09Rig, error) {
 		r.close()
 		return nil, err
 	}
-	for _, a := range []string{r.tcpA, r.tcpPP, r.sniA, r.wsA, r.dynA, r.dynPPA, r.tcpTLS, r.tcpWT, r.tcpLPP, r.mixA} {
+	for _, a := range []string{r.tcpA, r.tcpPP, r.sniA, r.wsA, r.dynA, r.dynPPA, r.tcpTLS, r.tcpWT, r.tcpLPP, r.mixA, r.sinkA, r.sinkTLS} {
 		if !fabioproc.WaitListening(a, 30*time.Second) {
 			r.close()
 			return nil, fmt.Errorf("listener %s did not come up\n%s", a, rg.proc.LogTail(1500))
@@ -382,11 +397,94 @@ func newC09Rig(c *ctx) (*c09Rig, error) {
 	return r, nil
 }
 
+// serveSink: the upstream has nothing to say: it ends its stream at once (FIN) and reads the client's to the end.
+func (r *c09Rig) serveSink() {
+	for {
+		cn, err := r.sinkLn.Accept()
+		if err != nil {
+			return
+		}
+		go func() {
+			defer cn.Close()
+			cn.(*net.TCPConn).CloseWrite()
+			all, _ := io.ReadAll(progressConn{cn})
+			if len(all) >= c09Prelude && string(all[:2]) == "VC" {
+				r.sinkGot.Store(string(all[2:18]), all[c09Prelude:])
+			}
+		}()
+	}
+}
+
+// c09Sink: the upstream finishes first, before the client has sent anything (on the TLS terminating listener: before or
+// while the client shakes hands). The client's stream must still arrive whole.
+func c09Sink(c *ctx, rg *c09Rig, n int) {
+	r := c.rng(977)
+	for i := 0; i < n; i++ {
+		kind, addr := "tcp-sink", rg.sinkA
+		if i%2 == 1 {
+			kind, addr = "tcp-tls-sink", rg.sinkTLS
+		}
+		id := fmt.Sprintf("%016x", uint64(0xfeed0000+i)|uint64(c.Seed)<<40)
+		size := int64(choose(r, []int{0, 1, 500, 70000, 300000}))
+		seed := r.Uint64()
+		wait := choose(r, []time.Duration{0, 0, 30 * time.Millisecond, 300 * time.Millisecond})
+		class := fmt.Sprintf("%s/%dB/wait=%v/upstream-finishes-before-the-client-starts", kind, size, wait)
+		in := map[string]any{"kind": kind, "bytes": size, "client_waits": wait.String()}
+		c.R.Eval(1)
+		c.R.Nontrivial(class)
+		cn, err := net.DialTimeout("tcp", addr, 10*time.Second)
+		if err != nil {
+			c.R.Violate("c09:connect-failed:"+kind, err.Error(), in)
+			return
+		}
+		time.Sleep(wait) // the upstream's FIN reaches fabio meanwhile
+		var w net.Conn = progressConn{cn}
+		var cw interface{ CloseWrite() error } = cn.(*net.TCPConn)
+		if kind == "tcp-tls-sink" {
+			tc := tls.Client(w, &tls.Config{InsecureSkipVerify: true})
+			if err := tc.Handshake(); err != nil {
+				c.R.Violate("c09:client-cut-off-when-upstream-finishes-first:"+kind, fmt.Sprintf("the upstream ended its (empty) stream at once; the client's TLS handshake with the listener then failed: %v [%s]", err, class), in)
+				cn.Close()
+				continue
+			}
+			w, cw = tc, tc
+		}
+		w.Write([]byte("VC" + id + "\r\n"))
+		serr := c09Send(w, size, seed, 0, 16<<10, false, rand.New(rand.NewSource(int64(seed))))
+		cw.CloseWrite()
+		rest, _ := io.ReadAll(w)
+		cn.Close()
+		var got []byte
+		for k := 0; k < 100; k++ {
+			if v, ok := rg.sinkGot.LoadAndDelete(id); ok {
+				got = v.([]byte)
+				break
+			}
+			if k == 99 {
+				c.R.Violate("c09:client-to-upstream-incomplete:"+kind+":upstream-finishes-before-the-client-starts", fmt.Sprintf("the upstream ended its stream first and kept reading; it never saw the client's stream of %d bytes (client send error: %v) [%s]", size, serr, class), in)
+			}
+			time.Sleep(50 * time.Millisecond)
+		}
+		if got == nil {
+			continue
+		}
+		ver := &c09Verifier{seed: seed}
+		ver.Write(got)
+		if ver.bad != "" || ver.off != size || len(rest) != 0 {
+			c.R.Violate("c09:client-to-upstream-incomplete:"+kind+":upstream-finishes-before-the-client-starts", fmt.Sprintf("upstream received %d of %d bytes (%s), client received %d bytes from an upstream that sent none [%s]", ver.off, size, ver.bad, len(rest), class), in)
+		}
+	}
+	c.R.Count("sink_sessions", int64(n))
+}
+
 func (r *c09Rig) close() {
 	if r.rg != nil {
 		r.rg.close()
 	}
 	r.up.ln.Close()
+	if r.sinkLn != nil {
+		r.sinkLn.Close()
+	}
 	if r.upTLS != nil {
 		r.upTLS.ln.Close()
 	}
@@ -475,6 +573,7 @@ func c09Tunnels(c *ctx) {
 		}(g)
 	}
 	wg.Wait()
+	c09Sink(c, rg, c.scale(c.pick(24, 200)))
 	c.R.SetCounter("bytes_verified_client_to_upstream", bytesC2U.Load())
 	c.R.SetCounter("bytes_verified_upstream_to_client", bytesU2C.Load())
 	c.R.SetCounter("upstream_connections", rg.up.Conns.Load())
